@@ -22,7 +22,7 @@ if HERE not in sys.path:
 
 from vf import smtref                                   # noqa: E402
 from vf.smtref import Atom, IllFormed                   # noqa: E402
-from vf.refsem import Evaluator, reffv, reftype, Unconstrained, NoSemantics      # noqa: E402
+from vf.refsem import Evaluator, reffv, reftype, Unconstrained, NoSemantics, FunV      # noqa: E402
 from vf.bp import BOOL, INT, REAL, STRING, is_bv, is_sort, is_fun, is_arr       # noqa: E402
 
 
@@ -160,31 +160,25 @@ class RefSolver(object):
         return out
 
     def search(self):
+        from vf.funsearch import find_model
         forms = [a for fr in self.frames for a in fr]
-        syms = set()
-        for b in forms:
-            syms |= reffv(b)
-        syms = sorted(syms, key=repr)
-        doms = []
-        for (n, t) in syms:
-            d = self.domain(t)
-            if d is None:
-                return "unknown", None
-            doms.append(d)
         cards = {s: self.args.card for s in self.el.sorts}
-        for combo in itertools.product(*doms):
-            I = {n: v for (n, _), v in zip(syms, combo)}
-            try:
-                if all(Evaluator(I, cards).eval(b) for b in forms):
-                    # complete the model on every live declared constant
-                    for n, t in self.live_symbols().items():
-                        if n not in I and not is_fun(t):
-                            d = self.domain(t)
-                            I[n] = d[0] if d else (0 if t in (INT, REAL) else "")
-                    return "sat", I
-            except (Unconstrained, NoSemantics):
-                return "unknown", None
-        return "unsat", None
+        try:
+            verdict, I = find_model(forms, cards, self.domain)
+        except (Unconstrained, NoSemantics):
+            return "unknown", None
+        if verdict == "sat":
+            # complete the model on every live declared constant / function
+            for n, t in self.live_symbols().items():
+                if n in I:
+                    continue
+                if is_fun(t):
+                    d = self.domain(t[1])
+                    I[n] = FunV([d[0] if d else 0])
+                else:
+                    d = self.domain(t)
+                    I[n] = d[0] if d else (0 if t in (INT, REAL) else "")
+        return verdict, I
 
     def handle(self, text):
         mode = self.args.mode
@@ -228,7 +222,8 @@ class RefSolver(object):
                         continue
                     verdict, model = self.search()
                     self.model = model
-                    self.out(verdict, raw, {"model": model})
+                    self.out(verdict, raw, {"model": None if model is None else
+                                            {n: (v.to_json() if isinstance(v, FunV) else v) for n, v in model.items()}})
                 elif name == "get-value":
                     if self.model is None:
                         self.out('(error "no model available")', raw)
@@ -243,8 +238,12 @@ class RefSolver(object):
                         I = dict(self.model)
                         for (n, ty) in reffv(b):
                             if n not in I:
-                                d = self.domain(ty)
-                                I[n] = d[0] if d else 0
+                                if is_fun(ty):
+                                    d = self.domain(ty[1])
+                                    I[n] = FunV([d[0] if d else 0])
+                                else:
+                                    d = self.domain(ty)
+                                    I[n] = d[0] if d else 0
                         v = Evaluator(I, cards).eval(b)
                         parts.append("(%s %s)" % (unparse(t), value_text(reftype(b), v)))
                         vals[unparse(t)] = v
